@@ -274,6 +274,18 @@ def call_method(eng, st, recv, name, args, kwargs, node):
         if isinstance(o, Obj):
             if name in o.attrs:
                 return call_value(eng, st, o.attrs[name], args, kwargs, node)
+            # a private helper method of the object's own class in the file under proof (e.g. an extracted `self._helper(...)`): inlined
+            meth = None
+            if eng.module is not None and eng.auto_inline:
+                try:
+                    cdef = eng.module._find_in(eng.module.tree.body, o.cls, (ast.ClassDef,))
+                except Exception:
+                    cdef = None
+                if cdef is not None:
+                    cands = [b for b in cdef.body if isinstance(b, ast.FunctionDef) and b.name == name and not b.decorator_list]
+                    meth = cands[-1] if cands else None
+            if meth is not None:
+                return inline(eng, st, Fn(f"{o.cls}.{name}", node=meth, closure={}), [recv] + list(args), kwargs)
             # a method we have no contract for on a modelled object: weakest contract
             return opaque_call(eng, st, f"{o.tag}.{name}", args, kwargs)
     if isinstance(recv, Exc) and name == "add_note":
